@@ -32,6 +32,7 @@ fn main() {
     match cmd.as_str() {
         "crash" => crash::run(&args, &mut sink),
         "churn" => crash::churn(&args, &mut sink),
+        "placement" => crash::placement(&args, &mut sink),
         "flock" => flock::run(&args, &mut sink),
         "core-pp" => core_pp::run(seed, cases, &mut sink),
         "core-mp" => core_mp::run(seed, cases, &mut sink),
